@@ -131,6 +131,13 @@ def main(check_id, harness_path, tier, seed, meta, t_quick=25, t_thorough=120, k
     nproc = int(os.environ.get("VERIF_JOBS", "0")) or min(16, os.cpu_count() or 4)
     with ThreadPoolExecutor(nproc) as ex:
         results = list(ex.map(lambda c: run_condition(harness_path, c[0], c[1], T, per_path=max(5, T // 3)), conds))
+    # 'Unable to meet precondition' also means "no path finished inside the per-path budget" (timing under load):
+    # such conditions get one more run, alone in the pool's place, with the whole budget available to a single path
+    for i, r in enumerate(results):
+        if r["verdict"] == "unable":
+            r2 = run_condition(harness_path, r["name"], r["line"], T, per_path=T)
+            r2["msg"] = "(second run, per-path budget = condition budget) " + r2["msg"]
+            results[i] = r2
     known, _ = load_known()
     violations, known_hits, inconclusive = [], [], []
     for r in results:
